@@ -36,6 +36,15 @@ pub fn mark_job_as_done(sh: &mut shell::Shell, gid: i32, pid: i32, reason: &str)
             println_stderr!("");
             print_job(&job);
         }
+        return;
+    }
+    // the job lives on: if every remaining member is stopped, so is the job
+    let all_stopped = match sh.get_job_by_gid(gid) {
+        Some(job) => job.status != "Stopped" && job.all_members_stopped(),
+        None => false,
+    };
+    if all_stopped {
+        sh.mark_job_as_stopped(gid);
     }
 }
 
